@@ -3,10 +3,12 @@ C10 — comparison operators that `Ordinal.Once.Bounds` may hold (`operator.ge/g
 are included so that a changed table still *compiles* and the theorems break instead of the build
 of the generated file).  `Cmp.eval c x b` is `operator.<c>(column_value, bound)`.
 
-The ordinal axis is modelled as `Int`: every ordinal kind explored by the harness
-(integer, float, string, date, timestamp) is a linear order and the harness maps its domain
-points to their rank (order isomorphism; the comparison semantics of the SQL engine for the five
-kinds is "modelled, not verified", DESIGN section 5 C10).
+The ordinal axis is an arbitrary type `α` with decidable `≤`, `<`, `=`: the theorems of Props/C10
+assume no more than that `≤` is a linear order and `<` its strict part (`Std.IsLinearOrder`,
+`Std.LawfulOrderLT`), which is what the five ordinal kinds (integer, float without NaN, string,
+date, timestamp) provide.  The driver instantiates `α := Int` and the harness maps the points of
+each kind's domain to their rank; that the SQL engine compares the stored values of a kind in the
+same order as Python compares the bound values is "modelled, not verified" (DESIGN section 5 C10).
 -/
 namespace ForML.Ordinal
 
@@ -15,7 +17,8 @@ inductive Cmp where
   deriving DecidableEq, Repr
 
 /-- `operator.<c>(x, b)` -/
-def Cmp.eval : Cmp → Int → Int → Bool
+def Cmp.eval {α : Type} [LE α] [LT α] [DecidableLE α] [DecidableLT α] [DecidableEq α] :
+    Cmp → α → α → Bool
   | .ge, x, b => decide (b ≤ x)
   | .gt, x, b => decide (b < x)
   | .le, x, b => decide (x ≤ b)
